@@ -175,6 +175,8 @@ func oneProgram(o *hxlib.Out, cf *hxlib.CommonFlags, i int, r *hxlib.Rng, p *pro
 		o.CountN("ssaop_"+op, n)
 	}
 	o.CountN("gc_steps", si.NumGC)
+	o.CountN("const_inputs_padded_or_truncated", si.ConstPad)
+	o.CountN("const_inputs_sign_padded", si.SignPad)
 
 	w := hxlib.StreamReference(p.Src, p.GIn, p.EIn)
 	refOK := w.Err == nil && w.Panic == nil
